@@ -10,8 +10,8 @@ for sd in ${@:-seeded/*/}; do
   for id in C01 C02 C03 C04 C05 C06 C07 C08 C09 C10 C11 C12 C13 C15 C17 C18 C19 C20; do
     out=$(VERIF_EVIDENCE_DIR="$D/.evidence" VERIF_REPO="$D" ./check $id --repo "$D" 2>&1)
     if echo "$out" | grep -q "^VIOLATION"; then
-      k=$(echo "$out" | grep "\[[A-Z]" | head -1 | sed "s/.*\[//" | cut -c1-120)
-      hit="$hit $id"; echo "      $id: [$k"
+      k=$(echo "$out" | grep -o "\[[A-Z][A-Z-]* " | sort | uniq -c | tr -s ' ' | tr '\n' ' ')
+      hit="$hit $id"; echo "      $id: $k"
     fi
   done
   echo "$sd => detected by:${hit:- NONE}"
